@@ -434,6 +434,9 @@ def fault_chunks(pkt, f):
         return [pkt[:f[1]]]
     if kind == 'garbage':
         return [bytes((i * 37 + 11) % 256 for i in range(f[1]))]
+    if kind == 'ptrunc':
+        # a correctly framed packet whose payload is cut short (the framing layer accepts it; the message parser must not)
+        return [packet(unframe(pkt)[:f[1]])]
     if kind == 'close':
         return [None]
     if kind == 'stall':
